@@ -551,12 +551,18 @@ func toForStmt(forPos token.Pos, value ast.Expr, body *ast.BlockStmt, re *ast.Ra
 		oldValue := value
 		value = &ast.Ident{NamePos: forPos, Name: "_gop_k"}
 		initLhs[0] = value
-		body.List = append([]ast.Stmt{&ast.AssignStmt{
-			Lhs:    []ast.Expr{oldValue},
-			TokPos: forPos,
-			Tok:    token.ASSIGN,
-			Rhs:    []ast.Expr{value},
-		}}, body.List...)
+		// a new block: the statement list of the source tree stays as parsed,
+		// so that the same tree can be compiled again
+		body = &ast.BlockStmt{
+			Lbrace: body.Lbrace,
+			List: append([]ast.Stmt{&ast.AssignStmt{
+				Lhs:    []ast.Expr{oldValue},
+				TokPos: forPos,
+				Tok:    token.ASSIGN,
+				Rhs:    []ast.Expr{value},
+			}}, body.List...),
+			Rbrace: body.Rbrace,
+		}
 		tok = token.DEFINE
 	}
 	if fp != nil && fp.Cond != nil {
